@@ -6,6 +6,7 @@ use crate::json::J;
 use crate::obs::*;
 use crate::ops::*;
 use crate::oracle::*;
+use crate::ops::set_current_hk;
 use crate::rng::Rng;
 use crate::types::*;
 use hashbrown::hash_map::DefaultHashBuilder;
@@ -90,6 +91,7 @@ pub fn run_history(cfg: &HistCfg, src: Source, out: &mut RunOut, opts: &HistOpts
 fn run_history_s<S: HB>(cfg: &HistCfg, mut src: Source, out: &mut RunOut, opts: &HistOpts) {
     ledger_reset();
     ledger_strict(true);
+    set_current_hk(cfg.hk);
     let base = base_entry_size();
     let mut caches: Vec<Cache<S>> = vec![S::make(cfg.max, cfg.cap0, cfg.hk)];
     let mut cur = 0usize;
@@ -131,7 +133,7 @@ fn run_history_s<S: HB>(cfg: &HistCfg, mut src: Source, out: &mut RunOut, opts: 
             Source::Dynamic(f) => match f(&pre_all[cur], step) { Some(op) => op, None => break },
         };
         // skip structurally impossible ops in fixed sequences
-        match &op { Op::Switch { idx } | Op::DropCache { idx } if *idx >= caches.len() => { step += 1; continue; } Op::Into { .. } if caches.len() < 2 && step + 1 < n_events => { step += 1; continue; } _ => {} }
+        match &op { Op::Switch { idx } | Op::DropCache { idx } | Op::CloneFrom { src: idx } if *idx >= caches.len() => { step += 1; continue; } Op::CloneFrom { src } if *src == cur => { step += 1; continue; } Op::Into { .. } if caches.len() < 2 && step + 1 < n_events => { step += 1; continue; } _ => {} }
         oplog.push(op.clone());
         let addressed = cur;
         let removed = match &op { Op::Into { .. } => Some(cur), Op::DropCache { idx } if caches.len() > 1 => Some(*idx), _ => None };
@@ -147,15 +149,16 @@ fn run_history_s<S: HB>(cfg: &HistCfg, mut src: Source, out: &mut RunOut, opts: 
         let pre_addressed = pre_all[addressed].clone();
         if let Some(r) = removed { pre_map.remove(r); }
         let is_clone = matches!(op, Op::CloneCache) && o.panic.is_none() && post_all.len() == pre_all.len() + 1;
+        let clone_src: Option<Obs> = match &op { Op::CloneFrom { src } => pre_all.get(*src).cloned(), _ => None };
         let addressed_after: Option<usize> = match &op {
             Op::Into { .. } => None,
-            Op::DropCache { .. } | Op::Switch { .. } => None,
+            Op::DropCache { .. } | Op::Switch { .. } | Op::NewCache { .. } => None,
             _ => Some(addressed),
         };
         // --- the addressed cache's event
         {
             let ev = Event { pre: &pre_addressed, op: &op, out: &o, post: addressed_after.and_then(|i| post_all.get(i)), ticks, base, hk: cfg.hk,
-                clone: if is_clone { post_all.last() } else { None }, fresh_cap: &fresh_cap };
+                clone: if is_clone { post_all.last() } else { None }, clone_src: clone_src.as_ref(), fresh_cap: &fresh_cap };
             if opts.bare { out.stats.events += 1; out.stats.eval_only("C07"); out.stats.eval_only("C06"); for m in post_all.iter().flat_map(|p| p.g1.iter()) { viols.push(Viol { prop: "C07", sig: "g1".into(), msg: format!("after {}: {}", op.to_text(), m) }); } } else if matches!(op, Op::Into { .. }) || addressed_after.is_some() { check_event(&ev, &mut out.stats, &mut viols); }
         }
         // --- C14 independence: every other cache is exactly as it was
@@ -228,7 +231,7 @@ fn run_history_s<S: HB>(cfg: &HistCfg, mut src: Source, out: &mut RunOut, opts: 
                 if p0.cap != cap_initial { viols.push(Viol { prop: "C13", sig: "with-capacity-changed".into(), msg: format!("cache created with_capacity({}) changed capacity from {} to {} at its {}-th fresh insertion", cfg.cap0.unwrap(), cap_initial, p0.cap, p0.len) }); }
             }
             peak_len = peak_len.max(p0.len).max(pre_addressed.len);
-            if matches!(op, Op::Reserve { .. } | Op::TryReserve { .. } | Op::TryReserveFail { .. }) { explicit_cap = explicit_cap.max(p0.cap); explicit_buckets = explicit_buckets.max(p0.buckets); }
+            if matches!(op, Op::Reserve { .. } | Op::TryReserve { .. } | Op::TryReserveFail { .. } | Op::CloneFrom { .. }) { explicit_cap = explicit_cap.max(p0.cap); explicit_buckets = explicit_buckets.max(p0.buckets); }
             let bound = (4 * peak_len).max(16);
             if !(p0.cap < bound || p0.cap <= explicit_cap || p0.buckets <= explicit_buckets) { viols.push(Viol { prop: "C13", sig: "growth-bound".into(), msg: format!("after {}: capacity {} with peak len {} (bound {}) and largest explicitly requested capacity {}", op.to_text(), p0.cap, peak_len, bound, explicit_cap) }); }
         } else if addressed_after != Some(0) || post_all.is_empty() {
@@ -287,7 +290,7 @@ fn run_history_s<S: HB>(cfg: &HistCfg, mut src: Source, out: &mut RunOut, opts: 
                 if got != want { viols.push(Viol { prop: "C06", sig: "drop-cache".into(), msg: format!("dropping a cache with {} entries dropped {} objects", pre.ents.len(), got.len()) }); }
                 out.stats.eval("C06", crate::rng::mix(&[200, pre.len.min(9) as u64])); }
             Some(op) => { oplog.push(op.clone()); let o = apply(&mut one, &mut cur0, &op, &mut held, base); let ticks = delta(&t0, &counts());
-                let ev = Event { pre: &pre, op: &op, out: &o, post: None, ticks, base, hk: cfg.hk, clone: None, fresh_cap: &fresh_cap };
+                let ev = Event { pre: &pre, op: &op, out: &o, post: None, ticks, base, hk: cfg.hk, clone: None, clone_src: None, fresh_cap: &fresh_cap };
                 check_event(&ev, &mut out.stats, &mut viols);
                 out.stats.eval("C06", crate::rng::mix(&[201, pre.len.min(9) as u64, o.yields.len().min(9) as u64, op.kind_index()]));
                 held.clear(); }
